@@ -3,7 +3,8 @@
 Runtime monitoring across interpreter processes.  The real RandomUDSServer is built in child
 interpreters (`python -m vf.checks.c16 --child spec.json out.json`) that differ in PYTHONHASHSEED,
 import order, construction path (direct / the CLI's config object), prior use of the global `random`
-module, a shifted wall clock and in whether another virtual ECU (other seed) was set up and asked the same
+module, a shifted wall clock, the pace at which the history is played (a clock that moves between two requests, every idle
+period below the inactivity limit) and in whether another virtual ECU (other seed) was set up and asked the same
 history in the same interpreter before.  Every child reports the model (`RandomUDSServer.services` after
 `setup()`) and the transcript of `UDSServerTransport.handle_request` over one request history; the
 parent compares them byte by byte (security seeds masked).  One more child per configuration walks
@@ -29,7 +30,10 @@ LEVEL = "exploration"
 ENGINE = "subprocess-lifecycle"
 TECHNIQUE = (
     "runtime monitoring across processes: the real RandomUDSServer is constructed in separate interpreter processes that "
-    "differ in PYTHONHASHSEED, import order, construction path, global-random history, wall-clock offset and in whether another "
+    "differ in PYTHONHASHSEED, import order, construction path, global-random history, wall-clock offset, the pace of the requests (in two "
+    "of the processes the clock moves by an idle period of at most 5.5 s before every request - one fixed period, or periods drawn per request - "
+    "while the others play the history without idle time; the histories contain runs of requests whose positive response is suppressed, "
+    "in non-default sessions, that last longer than the 10 s inactivity limit) and in whether another "
     "virtual ECU with a different seed was constructed, set up and exercised in the same interpreter before; the dumped "
     "model and the handle_request transcript over a generated, state-carrying request history are compared byte by byte "
     "(security seeds masked); the masked seeds themselves are compared for freshness: seeds answered to the same request in two "
@@ -44,7 +48,8 @@ LEVEL_TEXT = (
     "plus one walk process, and in both tiers two boundary-seed configurations (seed 0 as int and as the string '0') that are "
     "always taken through the CLI/config constructor path in three further processes, over histories of 30..300 requests built from the observed model (session changes, resets, "
     "security access with correct/wrong keys, reads/writes/routines, every-service sweeps, reference-generated valid "
-    "requests, random bytes; in the focus configurations - ReadDTCInformation, SecurityAccess and the identifier services mandatory and "
+    "requests, random bytes; between steps in a non-default session with probability 0.2 an idling tester: 2..7 keep-alives 3E 80 / 10 <session|80> "
+    "followed by 22 F1 86 and a request for a service or identifier of that session; in the focus configurations - ReadDTCInformation, SecurityAccess and the identifier services mandatory and "
     "answering positively - additionally requestSeed directly followed by a request answered from stateful_rng, and 19 02 <mask> in every session).  "
     "Every history with SecurityAccess in the model yields pairs of handed-out seeds (same request in two processes; successive requestSeed "
     "requests in one process) that are checked for freshness.  Per configuration 6 further configurations (own seeds; mandatory/optional session and service lists with repeated entries: a b a, the list twice, "
@@ -56,7 +61,8 @@ LEVEL_TEXT = (
 )
 LEVEL_NOTE = (
     "Trusted: the comparison/masking logic and the BFS in vf/checks/c16.py; the request generators in vf/gen_uds.py. "
-    "Environments differ by constant clock offsets only (the 10 s inactivity reset is an input, not noise)."
+    "Environments differ by constant clock offsets and by idle periods below the inactivity limit (a pause of 10 s or more is an input of "
+    "the ECU - it falls back to its default session - and is not part of the workload)."
 )
 RULE = (
     "case = (seed, randomness parameters, behaviour flags, request history, process environment); configurations are "
@@ -74,7 +80,10 @@ RULE = (
     "pairs derived from it by naming 2..10 non-default mandatory sessions (the configuration's own ones first) more than once in six patterns "
     "(and, with probability 0.3-0.4 each, repeating entries of the other three lists), judged structurally only (model dump + walks in one "
     "process); restart = the object under test of a process is set up a second time after teardown(): second model == first model always, "
-    "second transcript == first transcript when the last reply of the first life was 50 01 to 10 01 (or nothing had been asked)"
+    "second transcript == first transcript when the last reply of the first life was 50 01 to 10 01 (or nothing had been asked); "
+    "request-pace = the third and fourth (thorough: also the fifth) environment of every configuration advance time.time/time.monotonic by an idle period before every request "
+    "(fixed: one of 2.6, 3.5, 4, 5, 5.5 s; drawn: uniform in [lo, hi] with lo in {0,1,2}, hi in {4,5,5.5}, 30% of the draws 0 / hi / uniform in [0, hi]); "
+    "a child whose real gap between two requests exceeds 4 s is discarded, so no pause ever reaches 9.5 s"
 )
 ASSUMPTIONS = [
     "security-access seeds (positive replies 67 <odd> ...) are exempt including their length (an empty seed occurs in about 6% of the "
@@ -86,8 +95,15 @@ ASSUMPTIONS = [
     "a verdict needs >= 8 pairs of one kind in one configuration that are all equal (chance <= 2^-128 for uniformly drawn bytes, <= 2^-64 if only one "
     "byte per seed were random) or one equal pair of seeds of >= 8 bytes (<= 2^-64 per pair); no particular length, distribution or entropy source is demanded",
     "sessions are taken from 1..0x7E (RandomUDSServer.randomize indexes a 0x7F-element table; session 0x7F makes setup() raise IndexError and is not part of the workload)",
-    "'at different times' is exercised as constant offsets of time.time/time.monotonic (+1e9 s, -1.7e9 s, +3e9 s) installed before gallia is imported; "
-    "gaps between requests stay far below the 10 s inactivity reset (children with a gap > 4 s are discarded as harness noise)",
+    "'at different times' is exercised as constant offsets of time.time/time.monotonic (+1e9 s, -1.7e9 s, +3e9 s) installed before gallia is imported, "
+    "and as a clock that moves between two requests (the same history played at another pace); every pause between two requests stays below the 10 s "
+    "inactivity reset (idle period <= 5.5 s; children with a real gap > 4 s are discarded as harness noise)",
+    "the virtual ECU's fall-back to the default session after 10 s of inactivity is read as: 10 s without any request.  A tester that sends a request at "
+    "least every 9.5 s - with or without an answer, e.g. the TesterPresent keep-alive 3E 80 whose purpose this is - is never inactive, so the pace of "
+    "such a history is no input and the answers must be those of the history played without idle time",
+    "the idle periods end with the first request on which handle_request raises (only seen with non-default behaviour flags, which let the ECU enter a "
+    "session outside its model): what a failed ECU does over time is not part of the statement, the rest of the history is played without idle time "
+    "and compared as before",
     "PYTHONHASHSEED=random is exercised literally and additionally through parent-chosen numeric values (reproducible)",
     "the construction-path dimension compares RandomUDSServer(seed, RandomnessParameters(**args), Behavior(**flags)) with "
     "RngVirtualECU(RngVirtualECUConfig(target, seed=str(seed), **args as CLI strings))._server(); non-numeric string seeds only take the direct path; "
@@ -110,9 +126,9 @@ EXHAUSTIVE_NOTE = "per configuration every offered session is walked (exhaustive
 
 ROOT = Path(__file__).resolve().parent.parent.parent
 PY = "/venv/bin/python"
-DIMS = ["PYTHONHASHSEED", "import-order", "constructor-path", "global-random", "wall-clock", "other-ecu-in-same-process"]
+DIMS = ["PYTHONHASHSEED", "import-order", "constructor-path", "global-random", "wall-clock", "other-ecu-in-same-process", "request-pace"]
 ENV_FIELD = {"PYTHONHASHSEED": "hashseed", "import-order": "imp", "constructor-path": "ctor", "global-random": "grand", "wall-clock": "clock",
-             "other-ecu-in-same-process": "other"}
+             "other-ecu-in-same-process": "other", "request-pace": "pace"}
 # services whose answers RandomUDSServer derives from stateful_rng (seed, session, request): any other input shows there
 STATEFUL_SIDS = (0x22, 0x2E, 0x2F, 0x31, 0x14, 0x19)
 PROBS = ["p_session", "p_service", "p_sub_function", "p_identifier", "p_correct_payload_format", "p_dtc_status_mask"]
@@ -130,6 +146,19 @@ ALL_SERVICES = [
 ALL_SESSIONS = list(range(1, 0x7F))
 DSC, RESET, SA = 0x10, 0x11, 0x27
 MAX_GAP = 4.0
+# "request-pace": in some processes the clock moves between two requests (the tester idles on the bus).  The virtual ECU falls back to
+# its default session after INACTIVITY_LIMIT seconds without a request; a single idle period stays below MAX_PACE_GAP, so that idle
+# period plus the tolerated real gap (MAX_GAP) never reaches the limit and the pace is no input of the ECU.
+INACTIVITY_LIMIT = 10.0
+MAX_PACE_GAP = 5.5
+# The tester of a paced process idles only as long as handle_request has not raised: an ECU that raised (survival is C14's business;
+# here it needs non-default behaviour flags: a DiagnosticSessionControl to a session outside the model is accepted and every later
+# request fails with "Virtual ECU in unsupported session") is in a failed state, and every real transport closes the connection.
+# Set to True to keep idling: on /repo bf4f29f the check then reports transcript/differs-across/request-pace/... because requests on
+# which respond() raises do not refresh UDSServerTransport.last_time_active - the wedged ECU falls back to its default session 10 s
+# after the last request that did not raise although requests keep arriving, the one asked without idle time stays wedged.
+PACE_AFTER_EXCEPTION = False
+assert MAX_GAP + MAX_PACE_GAP < INACTIVITY_LIMIT
 # one root cause, one key: the session graph is generated independently of whether DiagnosticSessionControl ends up among the
 # services of a session; when the user takes it out of mandatory_services, sessions of the model become unreachable / dead ends
 NODSC_KEY = "model/session-graph-not-usable/dsc-not-mandatory"
@@ -152,13 +181,29 @@ def child_main(spec_file: str, out_file: str) -> int:
     real_time, real_mono, real_time_ns, real_mono_ns = _time.time, _time.monotonic, _time.time_ns, _time.monotonic_ns
     perf = _time.perf_counter
     off = float(env.get("clock") or 0)
-    if off:
+    pace = env.get("pace")
+    # virt[0]: idle time (seconds) the tester of this process has spent between its requests so far.  With "pace" the clock of this
+    # process moves by a gap below the inactivity limit before every request (drive()); without it the clock only has its offset.
+    virt = [0.0]
+    if off or pace:
         # installed before anything of gallia (or asyncio) is imported; constant offsets keep every difference intact
-        _time.time = lambda: real_time() + off
-        _time.monotonic = lambda: real_mono() + off
-        _time.time_ns = lambda: real_time_ns() + int(off * 1e9)
-        _time.monotonic_ns = lambda: real_mono_ns() + int(off * 1e9)
+        _time.time = lambda: real_time() + off + virt[0]
+        _time.monotonic = lambda: real_mono() + off + virt[0]
+        _time.time_ns = lambda: real_time_ns() + int((off + virt[0]) * 1e9)
+        _time.monotonic_ns = lambda: real_mono_ns() + int((off + virt[0]) * 1e9)
     import random as _random
+
+    pace_rng = _random.Random(f"C16/pace/{pace.get('seed')}") if pace else None  # (a private instance: the global generator is untouched)
+
+    def idle() -> None:
+        """The tester idles before its next request: the clock moves by a gap that stays below MAX_PACE_GAP."""
+        if not pace or pace_rng is None:
+            return
+        if pace["kind"] == "fixed":
+            g = float(pace["gap"])
+        else:
+            g = pace_rng.choice([0.0, pace_rng.uniform(0.0, float(pace["hi"])), float(pace["hi"])]) if pace_rng.random() < 0.3 else pace_rng.uniform(float(pace["lo"]), float(pace["hi"]))
+        virt[0] += min(max(g, 0.0), MAX_PACE_GAP)
 
     grand = env.get("grand")
     if grand:
@@ -242,10 +287,16 @@ def child_main(spec_file: str, out_file: str) -> int:
         last_seed: bytes | None = None
         masked = 0
         max_gap = 0.0
+        vstart = virt[0]
+        vclock: list[float] = []
+        raised = False  # handle_request has raised in this drive (every real transport closes the connection then)
         t_prev = perf()
         for i, item in enumerate(history):
             if progress:
                 out["progress"] = i
+            if not raised or spec.get("pace_after_exception"):
+                idle()
+            vclock.append(virt[0])
             if item.startswith("key:"):
                 req = bytes([SA, int(item[4:], 16)]) + (last_seed or b"")
             elif item.startswith("badkey:"):
@@ -273,6 +324,7 @@ def child_main(spec_file: str, out_file: str) -> int:
                 rep, _ = await transport.handle_request(req)
             except Exception as e:  # survival is C14's business; here only "same in every process"
                 transcript.append([f"EXC:{type(e).__name__}", dep])
+                raised = True
                 t_prev = perf()
                 continue
             t_prev = perf()
@@ -285,7 +337,7 @@ def child_main(spec_file: str, out_file: str) -> int:
                 transcript.append([bytes(rep[:2]).hex() + "**", dep])
             else:
                 transcript.append([bytes(rep).hex(), dep])
-        return {"transcript": transcript, "seeds": seeds, "masked": masked, "max_gap": max_gap, "sessions": sessions}
+        return {"transcript": transcript, "seeds": seeds, "masked": masked, "max_gap": max_gap, "sessions": sessions, "vstart": vstart, "vclock": vclock}
 
     async def exercise_other(other: dict[str, Any]) -> dict[str, Any]:
         """Environment dimension: another virtual ECU (other seed, same arguments) lives in this interpreter and was set up
@@ -471,6 +523,8 @@ def child_main(spec_file: str, out_file: str) -> int:
         out["masked"] = masked
         out["max_gap"] = max_gap
         out["final_session"] = int(server.state.session)
+        out["sessions"] = d["sessions"]  # (harness-side bookkeeping for the reach counters only; never compared)
+        out["vstart"], out["vclock"] = d["vstart"], d["vclock"]
         if out.get("other") and not out["other"]["error"]:
             # how much of what the ECU under test answered had been answered by the other ECU in the same session before
             seen = {(ss, item) for ss, item in out["other"].pop("positive")}
@@ -595,6 +649,13 @@ def required_reach(tier: str) -> dict[str, int]:
         "restart.without-serving-requests": 10 if q else 150,
         "restart.second-life-transcripts-compared": 15 if q else 250,
         "restart.second-life-replies-compared": 1500 if q else 25000,
+        # the same history played at another pace (the clock moves between two requests, every idle period below the inactivity
+        # limit): an answered request arrives in a non-default session more than the limit after the last answered one, the time in
+        # between bridged only by requests whose positive response is suppressed (3E 80 keep-alives, 10 <session|80>)
+        "env.request-pace.varied": 20 if q else 300,
+        "pace.suppressed-run-outlasting-inactivity-limit-in-nondefault-session": 40 if q else 600,
+        "pace.suppressed-run-outlasting-inactivity-limit-then-positive-reply": 30 if q else 400,
+        "pace.suppressed-run-outlasting-inactivity-limit-then-session-read": 30 if q else 400,
     }
 
 
@@ -811,13 +872,19 @@ def make_envs(tier: str, cfg: dict[str, Any], rng: random.Random) -> list[dict[s
         other = {"seed": str(int(s) + 7)}
     else:
         other = {"seed": s + "~other"}
+    # "pace": the same history played at another pace - before every request the clock of the process moves by an idle period
+    # (one fixed period per process, or periods drawn per request), every single one below MAX_PACE_GAP; the baseline process and
+    # the second one play the history without idle time.  (Own generator: the other dimensions stay what they were.)
+    prng = random.Random(f"C16/pace-env/{cfg['index']}/{cfg.get('history_seed')}")
+    pace_fixed = {"kind": "fixed", "gap": prng.choice([2.6, 3.5, 4.0, 5.0, MAX_PACE_GAP])}
+    pace_random = {"kind": "random", "lo": prng.choice([0.0, 1.0, 2.0]), "hi": prng.choice([4.0, 5.0, MAX_PACE_GAP]), "seed": prng.getrandbits(32)}
     envs = [
         # the baseline pins the global generator too, so that a dependence on it is reproducible there and gets its own name;
         # the second environment leaves it unseeded, as a user's process would
-        {"hashseed": "0", "imp": "server", "ctor": "direct", "grand": {"seed": 12345, "calls": 0}, "clock": 0, "other": None},
-        {"hashseed": "1", "imp": "tree", "ctor": "direct", "grand": None, "clock": 0, "other": other},
-        {"hashseed": "4242", "imp": "server", "ctor": cli, "grand": g1, "clock": 0, "other": other},
-        {"hashseed": "random", "imp": "tree", "ctor": cli, "grand": g2, "clock": 1e9, "other": None},
+        {"hashseed": "0", "imp": "server", "ctor": "direct", "grand": {"seed": 12345, "calls": 0}, "clock": 0, "other": None, "pace": None},
+        {"hashseed": "1", "imp": "tree", "ctor": "direct", "grand": None, "clock": 0, "other": other, "pace": None},
+        {"hashseed": "4242", "imp": "server", "ctor": cli, "grand": g1, "clock": 0, "other": other, "pace": pace_fixed},
+        {"hashseed": "random", "imp": "tree", "ctor": cli, "grand": g2, "clock": 1e9, "other": None, "pace": pace_random},
     ]
     # "second_life": after the history the same server object is left in the default session (10 01), shut down (teardown()) and
     # started again (setup()), and asked the same history again; judged within the process (first life vs second life), so it is
@@ -827,8 +894,9 @@ def make_envs(tier: str, cfg: dict[str, Any], rng: random.Random) -> list[dict[s
         # the boundary seed once more as an int through the config object, in a process that differs in nothing else
         envs.append(dict(envs[0], ctor="cli-int"))
     if tier != "quick":
-        envs.append({"hashseed": str(rng.randrange(2, 2**32)), "imp": "server", "ctor": "direct", "grand": dict(g2, calls=g2["calls"] + 13), "clock": -1.7e9, "other": None})
-        envs.append({"hashseed": "random", "imp": "tree", "ctor": "direct", "grand": None, "clock": 3e9, "other": other, "second_life": True})
+        envs.append({"hashseed": str(rng.randrange(2, 2**32)), "imp": "server", "ctor": "direct", "grand": dict(g2, calls=g2["calls"] + 13), "clock": -1.7e9, "other": None,
+                     "pace": {"kind": "random", "lo": 0.0, "hi": MAX_PACE_GAP, "seed": prng.getrandbits(32)}})
+        envs.append({"hashseed": "random", "imp": "tree", "ctor": "direct", "grand": None, "clock": 3e9, "other": other, "second_life": True, "pace": None})
     return envs
 
 
@@ -848,8 +916,13 @@ def _valid_requests(rng: random.Random, n: int) -> list[str]:
     return out
 
 
-def gen_history(rng: random.Random, model: dict[str, Any], n: int, focus: bool = False) -> list[str]:
+def gen_history(rng: random.Random, model: dict[str, Any], n: int, focus: bool = False, krng: random.Random | None = None) -> list[str]:
     """Requests steered by the observed model so that state is carried; tokens key:/badkey: are filled in by the child.
+
+    krng: between two steps taken in a non-default session, with probability 0.2, a tester that idles is put in: a run of 2..7 requests
+    whose positive response is suppressed (the TesterPresent keep-alive 3E 80; sometimes 10 <current session | 0x80>), then requests whose
+    answer shows the session (22 F1 86, a service the model offers here but not in the default session, a data identifier read).
+    These requests come from krng alone and are not counted in n: the history without them is the one rng alone yields.
 
     focus: a third of the steps additionally emits "27 <odd level offered> [3E] <request answered from stateful_rng> [key]"
     or "19 02 <mask>" in the current session, when the model offers the services there."""
@@ -884,8 +957,24 @@ def gen_history(rng: random.Random, model: dict[str, Any], n: int, focus: bool =
             return f"{sid:02x}{rng.choice(sfs) | rng.choice([0, 0, 0x80]):02x}" + payload(0, 4).hex()
         return f"{sid:02x}" + payload(0, 6).hex()
 
-    while len(out) < n:
+    extra = 0
+    while len(out) - extra < n:
         svc = M.get(cur, {})
+        if krng is not None and cur != 1 and krng.random() < 0.2:
+            run = ["3e80"] * krng.randint(2, 7)
+            if cur in (svc.get(DSC) or []) and krng.random() < 0.25:
+                run[krng.randrange(len(run))] = f"10{cur | 0x80:02x}"
+            run.append("22f186")
+            here_only = [sid for sid in svc if sid not in M.get(1, {})]
+            j = krng.random()
+            if j < 0.35 and here_only:
+                sid = krng.choice(here_only)
+                sfs = svc.get(sid)
+                run.append(f"{sid:02x}" + (f"{krng.choice(sfs):02x}" if sfs else "") + krng.randbytes(krng.randint(0, 3)).hex())
+            elif j < 0.7:
+                run.append(f"22{krng.choice(did_pool):04x}")
+            out.extend(run)
+            extra += len(run)
         if focus and rng.random() < 0.34:
             levels = [x for x in (svc.get(SA) or []) if x % 2 == 1]
             stateful = [x for x in STATEFUL_SIDS if x in svc] + ([RESET] if 4 in (svc.get(RESET) or []) else [])
@@ -969,7 +1058,7 @@ def gen_history(rng: random.Random, model: dict[str, Any], n: int, focus: bool =
                 out.append(f"{sid:02x}" + rng.randbytes(ln).hex())
         elif out:
             out.append(rng.choice(out[-20:]))
-    return out[: max(n, 1)]
+    return out[: max(n, 1) + extra]
 
 
 # =================================================================================================
@@ -987,14 +1076,16 @@ class Runner:
         self.cpu = 0.0
 
     def child(self, cfg: dict[str, Any], env: dict[str, Any], history: list[str], walk: bool, tag: str,
-              siblings: list[dict[str, Any]] | None = None) -> dict[str, Any]:
+              siblings: list[dict[str, Any]] | None = None, timeout: float | None = None) -> dict[str, Any]:
         """One interpreter process.  Returns the child's report or {'timeout': ...} / raises HarnessProblem."""
+        timeout = timeout or self.timeout
         self.n += 1
         stem = f"c{cfg['index']}-{tag}-{self.n}-{time.monotonic_ns() % 10**9}"
         spec_file = self.scratch / f"{stem}.spec.json"
         out_file = self.scratch / f"{stem}.out.json"
         spec = {"seed": cfg["seed"], "args": cfg["args"], "behavior": cfg["behavior"], "env": env, "history": history, "walk": walk,
-                "second_life": bool(walk or env.get("second_life")), "siblings": siblings or [], "hang_after": self.timeout - 8}
+                "second_life": bool(walk or env.get("second_life")), "siblings": siblings or [], "hang_after": timeout - 8,
+                "pace_after_exception": PACE_AFTER_EXCEPTION}
         spec_file.write_text(json.dumps(spec))
         penv = dict(os.environ)
         penv["PYTHONHASHSEED"] = env["hashseed"]
@@ -1003,7 +1094,7 @@ class Runner:
         t0 = time.monotonic()
         try:
             cp = subprocess.run([PY, "-m", "vf.checks.c16", "--child", str(spec_file), str(out_file)], cwd=ROOT, env=penv,
-                                timeout=self.timeout, capture_output=True, text=True)
+                                timeout=timeout, capture_output=True, text=True)
         except subprocess.TimeoutExpired as e:
             return {"timeout": True, "stderr": (e.stderr or b"")[-3000:].decode("utf-8", "replace") if isinstance(e.stderr, bytes) else str(e.stderr)[-3000:]}
         finally:
@@ -1022,7 +1113,7 @@ class Runner:
 
 def env_brief(env: dict[str, Any]) -> dict[str, Any]:
     return {"PYTHONHASHSEED": env["hashseed"], "import-order": env["imp"], "constructor-path": env["ctor"], "global-random": env["grand"], "wall-clock": env["clock"],
-            "other-ecu-in-same-process": env.get("other")}
+            "other-ecu-in-same-process": env.get("other"), "request-pace": env.get("pace")}
 
 
 def diff_dims(a: dict[str, Any], b: dict[str, Any]) -> list[str]:
@@ -1196,6 +1287,13 @@ def run_config(rn: Runner, tier: str, vseed: int, cfg: dict[str, Any], deadline_
         if res.get("timeout"):
             res2 = rn.child(cfg, env, history, walk, tag + "r", siblings)
             if res2.get("timeout"):
+                # a process starved by a loaded machine is not a hang: once more with four times the time (a hang stays one)
+                res3 = rn.child(cfg, env, history, walk, tag + "s", siblings, timeout=min(4 * rn.timeout, 240.0))
+                if not res3.get("timeout"):
+                    rep["notes"].append(f"config {cfg['index']} {tag}: child timed out twice, completed with four times the time (machine too loaded)")
+                    bump("child.slow-not-hung")
+                    res2 = res3
+            if res2.get("timeout"):
                 tb = res2.get("stderr", "")
                 in_server = "gallia/services/uds/server.py" in tb.split("Timeout (")[-1][:1500]
                 if in_server:
@@ -1206,7 +1304,7 @@ def run_config(rn: Runner, tier: str, vseed: int, cfg: dict[str, Any], deadline_
                 return None
             rep["notes"].append(f"config {cfg['index']} {tag}: one child timed out, the retry completed")
             bump("child.timeout-then-ok")
-            return res2
+            res = res2  # (judged for its gaps like a first attempt)
         if res.get("max_gap", 0) > MAX_GAP:
             res2 = rn.child(cfg, env, history, walk, tag + "g", siblings)
             if res2.get("timeout") or res2.get("max_gap", 0) > MAX_GAP:
@@ -1236,7 +1334,8 @@ def run_config(rn: Runner, tier: str, vseed: int, cfg: dict[str, Any], deadline_
         judge_siblings(cfg, w, viol, bump)
     second_life(w, envs[0], [], "walk")
     # ---- phase 2: the same history in every environment
-    history = (gen_history(random.Random(f"C16/{vseed}/hist/{cfg['index']}/{cfg['history_seed']}"), model, cfg["history_len"], bool(cfg.get("focus")))
+    history = (gen_history(random.Random(f"C16/{vseed}/hist/{cfg['index']}/{cfg['history_seed']}"), model, cfg["history_len"], bool(cfg.get("focus")),
+                           random.Random(f"C16/{vseed}/keep-alive/{cfg['index']}/{cfg['history_seed']}"))
                if model else ["1001", "3e00"])
     results: list[dict[str, Any] | None] = []
     for k, env in enumerate(envs):
@@ -1297,6 +1396,7 @@ def run_config(rn: Runner, tier: str, vseed: int, cfg: dict[str, Any], deadline_
         viol(key, what, {**base_w, "kind": "seed-freshness", "mode": kind, "env_a": envs[pa], "env_b": envs[pb], "history": history, "detail": detail,
                          "processes": len(okp), "env_brief_a": env_brief(envs[pa]), "env_brief_b": env_brief(envs[pb])})
     seed0_cli = 0
+    attrib: dict[str, Any] = {}
     for k, rk in enumerate(results):
         if rk is None:
             continue
@@ -1330,6 +1430,13 @@ def run_config(rn: Runner, tier: str, vseed: int, cfg: dict[str, Any], deadline_
                 bump("other-ecu.dtc-read-in-session-where-other-ecu-read-dtc", oi.get("dtc_read_in_session_read_by_other", 0))
             elif oi.get("error"):
                 bump("other-ecu.setup-failed")
+        if "request-pace" in dims and o0["outcome"] == "ok" and "vclock" in rk:
+            pr = pace_reach(r0, rk)
+            if pr["moved"] > 0:
+                bump("env.request-pace.varied")
+            for name, n_ in pr.items():
+                if name != "moved":
+                    bump("pace." + name, int(n_))
         if "wall-clock" in dims and abs((rk["server_clock_minus_real"] - r0["server_clock_minus_real"]) - (env["clock"] - envs[0]["clock"])) < 5:
             bump("env.wall-clock.varied")
         kind, detail = compare(o0, ok_)
@@ -1344,11 +1451,17 @@ def run_config(rn: Runner, tier: str, vseed: int, cfg: dict[str, Any], deadline_
             continue
         # ---- attribute the difference to single dimensions (one more child per differing dimension + a control)
         blamed: list[str] = []
-        ctrl = run_child(envs[0], history, False, f"a{k}c")
+        if "ctrl" not in attrib:  # (the control process is the same for every environment of the configuration: run once)
+            attrib["ctrl"] = run_child(envs[0], history, False, f"a{k}c")
+        ctrl = attrib["ctrl"]
         if ctrl is not None and compare(o0, observation(ctrl))[0] is not None:
             blamed = ["fresh-process"]
         else:
-            for d in dims:
+            # the pace of the requests is tried first and, when it alone reproduces the difference, the other dimensions are not tried
+            # (a process that differs from the baseline in nothing but its pace answers differently: nothing more to attribute)
+            for d in sorted(dims, key=lambda x: x != "request-pace"):
+                if blamed == ["request-pace"]:
+                    break
                 e1 = dict(envs[0])
                 e1[ENV_FIELD[d]] = env.get(ENV_FIELD[d])
                 r1 = run_child(e1, history, False, f"a{k}{d[:2]}")
@@ -1372,6 +1485,38 @@ def run_config(rn: Runner, tier: str, vseed: int, cfg: dict[str, Any], deadline_
                  f"{name} differs between processes that differ in {d}" + (f" (first differing reply at request #{detail['index']})" if kind == "transcript" else ""),
                  {**wit, "blamed": d, "env_brief_a": env_brief(envs[0]), "env_brief_b": env_brief(env)})
     return rep
+
+
+def pace_reach(r0: dict[str, Any], rk: dict[str, Any]) -> dict[str, float]:
+    """What the idle periods of the paced process rk met, judged on the replies and sessions of the baseline process r0 (no idle time)."""
+    vc, last = rk["vclock"], rk["vstart"]
+    t0, sess = [x[0] for x in r0["transcript"]], r0["sessions"]
+    o = {"moved": 0.0, "requests-after-an-idle-period": 0, "suppressed-requests-in-nondefault-session": 0,
+         "suppressed-run-outlasting-inactivity-limit-in-nondefault-session": 0, "suppressed-run-outlasting-inactivity-limit-then-positive-reply": 0,
+         "suppressed-run-outlasting-inactivity-limit-then-session-read": 0}
+    if len(vc) != len(t0) or len(sess) != len(t0):
+        raise HarnessProblem(f"paced child reported {len(vc)} clock readings for {len(t0)} replies")
+    prev = last
+    for i, reply in enumerate(t0):
+        gap = vc[i] - prev
+        prev = vc[i]
+        if gap > MAX_PACE_GAP + 1e-6:
+            raise HarnessProblem(f"idle period of {gap} s before request #{i}")
+        o["requests-after-an-idle-period"] += gap > 0
+        if reply == "none":
+            # nothing was answered, the session (as the baseline process shows it before the next request) stays what it was
+            o["suppressed-requests-in-nondefault-session"] += sess[i] != 1
+            continue
+        if vc[i] - last > INACTIVITY_LIMIT and sess[i] != 1:
+            # more than the inactivity limit since the last answered request, bridged by requests without an answer only
+            o["suppressed-run-outlasting-inactivity-limit-in-nondefault-session"] += 1
+            if not reply.startswith(("7f", "EXC")):
+                o["suppressed-run-outlasting-inactivity-limit-then-positive-reply"] += 1
+            if reply.startswith("62f186") and reply != "62f18601":
+                o["suppressed-run-outlasting-inactivity-limit-then-session-read"] += 1
+        last = vc[i]
+    o["moved"] = vc[-1] - rk["vstart"] if vc else 0.0
+    return o
 
 
 def _brief_params(res: dict[str, Any]) -> Any:
